@@ -93,6 +93,13 @@ def run_case(case, ctx):
     kind, nv = cfg["kind"], cfg["nv"]
     am, ph = gen.draw_model(rng, kind, nv, cfg["nh"], cfg["na"], scales=[0.1, 0.5, 1.0])
     st = gen.make_state(kind, am, ph)
+    if case["rep"] % 2 == 1:
+        # a model that went through the public reset before it got these parameters trains exactly like a fresh one
+        st.reinitialize_parameters()
+        gen.set_params(st.rbm_am, am)
+        if ph is not None:
+            gen.set_params(st.rbm_ph, ph)
+        ctx.count("models_reinitialised_before_training")
     V = R.space(nv)
     rows = V[rng.integers(0, len(V), size=cfg["N"])]
     bases = None
